@@ -202,6 +202,7 @@ fn documents() -> Vec<(&'static str, String)> {
 			"vector_layers with fields, description, zooms",
 			r#"{"tilejson":"3.0.0","name":"v","vector_layers":[{"id":"roads","description":"all \"roads\"","minzoom":4,"maxzoom":14,"fields":{"kind":"String","lanes":"Number","name:de":"a \\ b"}},{"id":"water","fields":{}}]}"#.to_string(),
 		),
+		("zoom range and bounds tighter than the stored coverage (must not be widened)", r#"{"tilejson":"3.0.0","minzoom":4,"maxzoom":4,"bounds":[1.5,60.1,2.5,60.9],"name":"tight"}"#.to_string()),
 		("custom string and list keys", r#"{"tilejson":"3.0.0","author":"x","license":"ODbL","type":"baselayer","legend":"l","template":"{{x}}","grids":["g1"],"data":["d1","d2"]}"#.to_string()),
 	]
 }
